@@ -3,14 +3,14 @@
  "property": "C16",
  "standin": "B-seed",
  "bound": "fixed list of 39 (quick) / 48 (thorough) set / frozenset / dict / Enum values, each rendered by code_repr and _value_to_code in separate interpreters with PYTHONHASHSEED 0..3 (quick) / 0..7 (thorough) x {black, black import blocked, format_command=cat}; 6 extra construction orders per top-level set; dict insertion order (F15) not varied",
- "input": "[({\"b\", \"a\", \"c\", \"d\"},), ((frozenset({\"f\", \"e\", \"g\"}),),)]",
- "detail": "code_repr text differs between hash seeds: PYTHONHASHSEED=[0]: \"[({'d', 'c', 'a', 'b'},), ((frozenset({'g', 'e', 'f'}),),)]\"; PYTHONHASHSEED=[1]: \"[({'d', 'a', 'b', 'c'},), ((frozenset({'f', 'g', 'e'}),),)]\"; PYTHONHASHSEED=[2]: \"[({'c', 'b', 'a', 'd'},), ((frozenset({'f', 'g', 'e'}),),)]\"; PYTHONHASHSEED=[3]: \"[({'c', 'b', 'd', 'a'},), ((frozenset({'g', 'f', 'e'}),),)]\""
+ "input": "frozenset({frozenset({\"x\", \"y\"}), frozenset({\"z\"}), frozenset({\"y\", \"z\"})})",
+ "detail": "[incomparable elements without TypeError: frozenset / frozenset] code_repr text differs between hash seeds: PYTHONHASHSEED=[0, 1, 2]: \"frozenset({frozenset({'z'}), frozenset({'y', 'z'}), frozenset({'x', 'y'})})\"; PYTHONHASHSEED=[3]: \"frozenset({frozenset({'x', 'y'}), frozenset({'z'}), frozenset({'y', 'z'})})\""
 }
 """
 
 # run with: /verif/.venv/bin/python <this file>      (inline_snapshot is the editable install of /repo)
 import os, subprocess, sys
-EXPR = '[({"b", "a", "c", "d"},), ((frozenset({"f", "e", "g"}),),)]'
+EXPR = 'frozenset({frozenset({"x", "y"}), frozenset({"z"}), frozenset({"y", "z"})})'
 CHILD = 'from enum import Enum, Flag, IntEnum\nclass Color(Enum):\n    RED = "r"\n    GREEN = "g"\n    BLUE = "b"\nclass Size(IntEnum):\n    S = 1\n    M = 2\n    L = 3\nclass Perm(Flag):\n    R = 4\n    W = 2\n    X = 1\n' + """
 import sys
 from inline_snapshot._code_repr import code_repr
